@@ -109,11 +109,11 @@ var plans = map[string]*plan{
 	"C01": {
 		Level: "exploration",
 		Rule: "sequential histories (15..40 steps) of connect / SUBSCRIBE (1..3 filters) / UNSUBSCRIBE / PUBLISH (client QoS 0..2, Server.Publish) / DISCONNECT / abrupt close over 3..6 raw clients and 2 in-process subscribers against a real broker over net.Pipe inside a testing/synctest bubble; synctest.Wait() after every step is true quiescence, so the set of packets each client holds is final. A 15-line model (client -> filter -> granted QoS, MQTT 4.7 matcher) predicts for every publish, per subscriber, between 1 and k copies (k matching subscriptions) with QoS multiset min(pub, granted), none for everybody else; topic, CRC-carrying payload and unique id are checked. " +
-			"Filters/names over {a, b, a 50-char literal, a UTF-8 literal, empty level (marked subset), +, #} with 1..4 levels; payload sizes 17..4000, 8 KiB block edge and BufferSize-8192 limit for BufferSize 16K/64K/default. Concurrent (real time): publishers stream numbered QoS 1 messages while subscribers subscribe/unsubscribe; every operation is logged at the client boundary with call/return stamps from one counter and the history of each (subscriber, topic) pair is checked with porcupine against the one-bit model 'subscribed' (a publish accepted after the SUBACK must be delivered, one accepted after the UNSUBACK must not); and under the C17 stress workload every stable subscriber must receive every acknowledged publish exactly once. distinct = (filter shape, topic shape, verdict, pub QoS, granted QoS) + run configurations.",
-		Quick:          []batchSpec{{Test: "TestC01Seq", N: 8, Timeout: 15 * m}, {Test: "TestC01Conc", N: 4, Timeout: 15 * m}, {Test: "TestC01Stress", N: 4, Timeout: 15 * m}},
-		Thorough:       []batchSpec{{Test: "TestC01Seq", N: 16, Timeout: 60 * m}, {Test: "TestC01Conc", N: 16, Timeout: 60 * m}, {Test: "TestC01Conc", N: 4, Race: true, Timeout: 60 * m}, {Test: "TestC01Stress", N: 8, Timeout: 60 * m}},
+			"Filters/names over {a, b, a 50-char literal, a UTF-8 literal, empty level (marked subset), +, #} with 1..4 levels; payload sizes 17..4000, 8 KiB block edge and BufferSize-8192 limit for BufferSize 16K/64K/default. Concurrent (real time): publishers stream numbered QoS 1 messages while subscribers subscribe/unsubscribe; every operation is logged at the client boundary with call/return stamps from one counter and the history of each (subscriber, topic) pair is checked with porcupine against the one-bit model 'subscribed' (a publish accepted after the SUBACK must be delivered, one accepted after the UNSUBACK must not); and under the C17 stress workload every stable subscriber must receive every acknowledged publish exactly once. Backpressure (synctest): a subscriber stops reading while the publisher pipelines more than three ring sizes of messages (its processor parks on the subscriber's full ring, its own inbound ring fills and laps), then resumes: every subscriber must hold every message once, in order, CRC-intact. distinct = (filter shape, topic shape, verdict, pub QoS, granted QoS) + run configurations.",
+		Quick:          []batchSpec{{Test: "TestC01Seq", N: 8, Timeout: 15 * m}, {Test: "TestC01Conc", N: 4, Timeout: 15 * m}, {Test: "TestC01Stress", N: 4, Timeout: 15 * m}, {Test: "TestC01Backpressure", N: 4, Timeout: 15 * m}},
+		Thorough:       []batchSpec{{Test: "TestC01Seq", N: 16, Timeout: 60 * m}, {Test: "TestC01Conc", N: 16, Timeout: 60 * m}, {Test: "TestC01Conc", N: 4, Race: true, Timeout: 60 * m}, {Test: "TestC01Stress", N: 8, Timeout: 60 * m}, {Test: "TestC01Backpressure", N: 8, Timeout: 60 * m}},
 		EvalStats:      []string{"c01.seq.publishes", "c01.conc.ops", "c01s.published"},
-		Floors:         map[string]int64{"c01.seq.histories": 1300, "c01.seq.publishes": 12000, "c01.seq.wildcard_must": 3000, "c01.seq.wildcard_mustnot": 20000, "c01.conc.histories": 190, "c01.conc.ops": 15000, "c01s.runs": 22, "c01s.exactly_once_streams": 3000, "classes": 400},
+		Floors:         map[string]int64{"c01.seq.histories": 1300, "c01.seq.publishes": 12000, "c01.seq.wildcard_must": 3000, "c01.seq.wildcard_mustnot": 20000, "c01.conc.histories": 190, "c01.conc.ops": 15000, "c01s.runs": 22, "c01s.exactly_once_streams": 3000, "c01.bp.runs": 110, "classes": 400},
 		FloorsThorough: map[string]int64{"c01.seq.histories": 30000, "c01.seq.publishes": 300000, "classes": 600},
 		Assumptions:    []string{"synctest.Wait() returns only when every goroutine of broker and harness is durably blocked, i.e. at quiescence", "raw clients acknowledge promptly; takeover of a live client id is not exercised"},
 	},
@@ -227,8 +227,8 @@ var plans = map[string]*plan{
 		Level: "exploration",
 		Rule: "concurrent real-time workload on a real broker over net.Pipe with 16 KiB rings and broker-side read fragmentation: 2..12 raw publishers (own + shared topics, QoS 0/1/2, payloads 17/100/4096/8152 bytes so packets straddle the ring end) to 2..6 stable subscribers (fast, slow, bursty readers; granted QoS 0/1/2), concurrent Server.Publish/Subscribe/Unsubscribe goroutines, retained updates, and churning subscribers being torn down while deliveries are addressed to them; GOMAXPROCS 2/4/16; also under the race detector. " +
 			"Oracle: every byte every subscriber receives is consumed by the strict reference parser with no framing error, every PUBLISH payload passes its CRC, and per (subscriber, publisher, topic, published QoS) the embedded sequence numbers are strictly increasing. Client role: a library Client queues 1..3 PUBLISH packets of 9 KiB..200 KiB and calls Disconnect at once; the raw bytes a TCP peer receives must be a prefix of those whole packets, with the DISCONNECT on a packet boundary. distinct = run configurations.",
-		Quick:          []batchSpec{{Test: "TestC17", N: 10, Timeout: 15 * m}, {Test: "TestC17", N: 6, Race: true, Timeout: 20 * m}, {Test: "TestC17Client", N: 2, Timeout: 15 * m}},
-		Thorough:       []batchSpec{{Test: "TestC17", N: 16, Timeout: 60 * m}, {Test: "TestC17", N: 16, Race: true, Timeout: 60 * m}, {Test: "TestC17Client", N: 8, Timeout: 30 * m}},
+		Quick:          []batchSpec{{Test: "TestC17", N: 10, Timeout: 15 * m}, {Test: "TestC17", N: 6, Race: true, Timeout: 20 * m}, {Test: "TestC17Client", N: 2, Timeout: 15 * m}, {Test: "TestC01Backpressure", N: 2, Timeout: 15 * m}},
+		Thorough:       []batchSpec{{Test: "TestC17", N: 16, Timeout: 60 * m}, {Test: "TestC17", N: 16, Race: true, Timeout: 60 * m}, {Test: "TestC17Client", N: 8, Timeout: 30 * m}, {Test: "TestC01Backpressure", N: 8, Timeout: 30 * m}},
 		EvalStats:      []string{"c17.runs"},
 		Floors:         map[string]int64{"c17.runs": 50, "c17.published": 20000, "c17.received": 100000, "c17.order_keys": 5000, "c17.churned_connections": 2000, "c17.client_runs": 55, "classes": 40},
 		FloorsThorough: map[string]int64{"c17.runs": 700, "c17.published": 1000000, "classes": 200},
@@ -240,9 +240,9 @@ var plans = map[string]*plan{
 		Rule: "the Go race detector (-race, GORACE halt_on_error=0 with a log file per child, reports counted in the logs) observes the concurrent broker workloads W1 connect/subscribe/publish/disconnect churn, W2 fan-out to clients being torn down, W3 retained updates concurrent with new subscriptions on the same topics, W4 in-process Server.Publish/Subscribe/Unsubscribe alongside, W5 Server.Close during traffic, W6 the ring-buffer and ack-queue concurrent workloads, W7 (reported separately) a client id reconnecting while its previous connection is still being torn down; seeds x GOMAXPROCS 2/4/16 with seeded Gosched/sleep yields at the library's yield points; logging off. " +
 			"A report with a library frame in either access is a violation, de-duplicated by the pair of innermost library functions. Overlap counters measured in the same processes (deliveries entering writeMessage during/after the target's teardown, Retain calls during subscribe processing and vice versa) show the workloads really overlapped. distinct = (workload, GOMAXPROCS, fragmentation).",
 		Quick: []batchSpec{{Test: "TestC18", N: 10, Race: true, Timeout: 20 * m}, {Test: "TestC18", N: 2, Race: true, Timeout: 20 * m, Env: map[string]string{"VERIF_WORKLOAD": "w7"}, Tag: "w7"},
-			{Test: "TestC14Conc", N: 4, Race: true, Timeout: 15 * m}, {Test: "TestC13Conc", N: 2, Race: true, Timeout: 15 * m}},
+			{Test: "TestC14Conc", N: 4, Race: true, Timeout: 15 * m}, {Test: "TestC13Conc", N: 2, Race: true, Timeout: 15 * m}, {Test: "TestC01Backpressure", N: 2, Race: true, Timeout: 15 * m}},
 		Thorough: []batchSpec{{Test: "TestC18", N: 16, Race: true, Timeout: 90 * m}, {Test: "TestC18", N: 4, Race: true, Timeout: 60 * m, Env: map[string]string{"VERIF_WORKLOAD": "w7"}, Tag: "w7"},
-			{Test: "TestC14Conc", N: 8, Race: true, Timeout: 60 * m}, {Test: "TestC13Conc", N: 4, Race: true, Timeout: 30 * m}, {Test: "TestC12Client", N: 4, Race: true, Timeout: 30 * m}},
+			{Test: "TestC14Conc", N: 8, Race: true, Timeout: 60 * m}, {Test: "TestC13Conc", N: 4, Race: true, Timeout: 30 * m}, {Test: "TestC12Client", N: 4, Race: true, Timeout: 30 * m}, {Test: "TestC01Backpressure", N: 4, Race: true, Timeout: 30 * m}},
 		EvalStats:      []string{"c18.runs", "c14.conc.runs", "c13.conc.histories"},
 		Floors:         map[string]int64{"c18.runs": 40, "c18.published": 10000, "c18.overlap.writes_during_target_teardown": 100, "c18.overlap.retain_during_subscribe_processing": 1, "c18.churned_connections": 1000, "classes": 15},
 		FloorsThorough: map[string]int64{"c18.runs": 400, "classes": 20},
